@@ -47,7 +47,58 @@ Theorem C02_pad_strip_id : forall x, length x = 8%nat -> pad8 (strip_nul x) = x.
 Proof. exact pad_strip_id. Qed.
 Print Assumptions C02_pad_strip_id.
 
+(* --- never handed to any other listener: names that do not fit the 8-byte field --- *)
+
+(* SendMessageWithHopsToLive refuses a source or destination service name longer than 8 bytes:
+   no packet is made ... *)
+Theorem C02_overlong_service_refused : forall hash self m,
+  (8 < blen (m_fsvc m) \/ 8 < blen (m_tsvc m)) -> first_hop_packet hash self m = None.
+Proof. exact first_hop_refused. Qed.
+Print Assumptions C02_overlong_service_refused.
+
+(* ... hence, in every world, nothing is forwarded and nothing is handed to any listener *)
+Theorem C02_refused_send_causes_nothing : forall w src fsvc to tsvc data h,
+  send_refused fsvc tsvc = true ->
+  send_api w src fsvc to tsvc data h = ([], SE_TOOLONG)
+  /\ count_deliver (fst (send_api w src fsvc to tsvc data h)) = 0%nat
+  /\ count_forward (fst (send_api w src fsvc to tsvc data h)) = 0%nat.
+Proof. exact refused_send_causes_nothing. Qed.
+Print Assumptions C02_refused_send_causes_nothing.
+
+(* a packet that IS sent carries both service names whole (name, then NULs only): no name
+   travels as a prefix of itself *)
+Theorem C02_sent_names_whole : forall hash self m p,
+  first_hop_packet hash self m = Some p ->
+  firstn 8 (skipn 20 p) = m_fsvc m ++ repeat 0 (8 - length (m_fsvc m)) /\
+  firstn 8 (skipn 28 p) = m_tsvc m ++ repeat 0 (8 - length (m_tsvc m)) /\
+  skipn 36 p = m_data m.
+Proof. exact first_hop_names_whole. Qed.
+Print Assumptions C02_sent_names_whole.
+
 (* --- however a stream backend fragments or coalesces the framed bytes --- *)
+
+(* frame lengths are below 2^16: on that whole range the two header bytes spell the exact length
+   and the receiver's "length + 2" stays below 2^16 + 2, so the model's unbounded arithmetic and
+   the 16-bit header agree *)
+Theorem C02_frame_header_exact : forall m, flen m < 65536 ->
+  exists b0 b1, frame m = b0 :: b1 :: m /\ b0 < 256 /\ b1 < 256 /\ b0 + 256 * b1 = flen m
+                /\ b0 + 256 * b1 + 2 <= 65537.
+Proof. exact frame_header_exact. Qed.
+Print Assumptions C02_frame_header_exact.
+
+(* GetMessage returns a message only from inside the buffer, of exactly the announced length,
+   for every header 0 .. 65535 *)
+Theorem C02_pop_in_bounds : forall buf m rest, pop buf = Some (m, rest) ->
+  exists b0 b1, buf = b0 :: b1 :: m ++ rest /\ flen m = b0 + 256 * b1.
+Proof. exact pop_in_bounds. Qed.
+Print Assumptions C02_pop_in_bounds.
+
+(* outside the range (>= 65536 bytes) SendData does not refuse, it writes the length modulo
+   2^16, and the framing of the link is lost: refuted there, which is why the theorems below
+   carry the hypothesis flen m < 65536 (netceptor's packets are at most MTU + 36 = 16420) *)
+Theorem C02_oversize_frame_refuted : forall m, flen m = 65536 -> pop (frame m) = Some ([], m).
+Proof. exact oversize_frame_garbled. Qed.
+Print Assumptions C02_oversize_frame_refuted.
 
 Theorem C02_framer_any_chunking : forall msgs chunks,
   Forall (fun m => flen m < 65536) msgs -> concat chunks = stream msgs ->
